@@ -46,6 +46,7 @@ type Cfg struct {
 	MaxSize    int     `json:"max_size"` // 0 = unbounded
 	InitMeta   int     `json:"init_meta"`
 	PQObserver bool    `json:"pq_observer,omitempty"` // queue opened with a statistics observer
+	IDBase     uint64  `json:"id_base,omitempty"`     // first event id of the (new) queue
 	Prealloc   bool    `json:"prealloc,omitempty"`
 	WALLimit   int     `json:"wal_limit"`
 	GrowPct    int     `json:"grow_pct,omitempty"`
